@@ -4,6 +4,7 @@
 #include <kernel/lafem/none_filter.hpp>
 #include <kernel/lafem/sparse_matrix_bcsr.hpp>
 #include <kernel/lafem/dense_vector_blocked.hpp>
+#include <kernel/solver/jacobi_precond.hpp>
 #include <kernel/solver/sor_precond.hpp>
 #include <kernel/solver/ssor_precond.hpp>
 #include <kernel/solver/ilu_precond.hpp>
@@ -47,6 +48,8 @@ void blocked_cases(Index n, const Pattern& p)
     H<DT>::begin(cn, "{\"precond\":\"" + nm + "\"}");
     Dense<DT> DA; BM<DT> A = make_bcsr<DT, Index, B, B, BM<DT>>(n, n, p, "a", &DA); NF filt;
     // make the diagonal blocks dominant at the shadow point (values stay free symbols)
+    for(Index i = 0; i < n; ++i) for(Index k = A.row_ptr()[i]; k < A.row_ptr()[i + 1]; ++k) if(A.col_ind()[k] == i)
+      for(int a = 0; a < B; ++a) { DT v = H<DT>::var("ad" + str(i) + "_" + str(Index(a)), 3.25 + 0.4375 * double(i * B + Index(a))); A.val()[k](a, a) = v; DA[i * B + Index(a)][i * B + Index(a)] = v; }
     BV<DT> d(n), c(n); std::vector<DT> db;
     for(Index i = 0; i < n * B; ++i) { DT x = H<DT>::var("d" + str(i), 0.5 + 0.375 * double(i)); d.template elements<LAFEM::Perspective::pod>()[i] = x; db.push_back(x); c.template elements<LAFEM::Perspective::pod>()[i] = H<DT>::var("cjunk" + str(i), 9.0 + double(i)); }
     int rc = guarded([&] {
@@ -60,6 +63,9 @@ void blocked_cases(Index n, const Pattern& p)
     H<DT>::fact("completes", rc == 0, rc == 2 ? "memory fault" : "abort");
     H<DT>::end();
   };
+  // (pointwise) Jacobi on the blocked matrix: a_ii c_i = omega d_i for every scalar row i
+  run("jacobi", [&](const BM<DT>& A, const NF& f) { return Solver::new_jacobi_precond(A, f, omega); },
+    [&](const Dense<DT>& D, const std::vector<DT>& c, const std::vector<DT>& d) { for(Index i = 0; i < n * B; ++i) H<DT>::eq("a_ii c_i = omega d_i [" + str(i) + "]", D[i][i] * c[i], omega * d[i]); });
   // block SOR: (D/omega + L) c = d
   run("sor", [&](const BM<DT>& A, const NF& f) { return Solver::new_sor_precond(PreferredBackend::generic, A, f, omega); },
     [&](const Dense<DT>& D, const std::vector<DT>& c, const std::vector<DT>& d) {
